@@ -263,10 +263,61 @@ func replayOpenBuild(b obBeh, n int) (finds []Finding) {
 type sinkURLBeh struct {
 	Kind string `json:"kind"`
 	URL  struct {
-		Scheme, User, Host, Port, Query, Frag string
+		Scheme, User, Host, Port, Query, Frag, Path string
 	} `json:"url"`
 	Name    string `json:"name"`
 	Verdict string `json:"verdict"`
+}
+
+// replaySinkURLPath: unusual but legal paths must be opened exactly as the operating system resolves them.
+func replaySinkURLPath(b sinkURLBeh, sub string) (finds []Finding) {
+	add := func(key, f string, a ...interface{}) { finds = append(finds, Finding{Key: key, What: fmt.Sprintf(f, a...)}) }
+	if b.Verdict != "open-path" || b.URL.Host == "localhost" && b.URL.Scheme == "none" {
+		return nil // rejection of these URLs is covered by the plain-path cases
+	}
+	wd, _ := os.Getwd()
+	defer os.Chdir(wd)
+	if err := os.Chdir(sub); err != nil {
+		return nil
+	}
+	var raw, wantFile, wrongFile string
+	switch b.URL.Path {
+	case "dotdot-after-symlink":
+		os.MkdirAll(filepath.Join(sub, "real", "deep"), 0o755)
+		if err := os.Symlink(filepath.Join(sub, "real", "deep"), filepath.Join(sub, "link")); err != nil {
+			return nil
+		}
+		p := sub + "/link/../app.log" // the kernel resolves link/.. to real/, so the file is real/app.log
+		wantFile, wrongFile = filepath.Join(sub, "real", "app.log"), filepath.Join(sub, "app.log")
+		raw = p
+		if b.URL.Scheme != "none" {
+			raw = b.URL.Scheme + "://" + map[string]string{"empty": "", "localhost": "localhost"}[b.URL.Host] + p
+		}
+	case "dot-slash-stdout":
+		wantFile = filepath.Join(sub, "stdout")
+		raw = "./stdout"
+		if b.URL.Scheme != "none" {
+			raw = b.URL.Scheme + "://" + map[string]string{"empty": "", "localhost": "localhost"}[b.URL.Host] + sub + "/./stdout"
+		}
+	default:
+		return nil
+	}
+	ws, closeAll, err := zap.Open(raw)
+	if err != nil {
+		add("C19/url:valid-rejected", "Open(%q) failed: %v", raw, err)
+		return
+	}
+	ws.Write([]byte("x"))
+	closeAll()
+	if _, err := os.Stat(wantFile); err != nil {
+		add("C19/url:wrong-path-opened", "Open(%q) did not create %s (exactly the given path, as the operating system resolves it, must be opened)", raw, wantFile)
+	}
+	if wrongFile != "" {
+		if _, err := os.Stat(wrongFile); err == nil {
+			add("C19/url:wrong-path-opened", "Open(%q) created %s, which is not what the path names", raw, wrongFile)
+		}
+	}
+	return finds
 }
 
 func replaySinkURL(b sinkURLBeh, dir string, n int) (finds []Finding) {
@@ -277,6 +328,9 @@ func replaySinkURL(b sinkURLBeh, dir string, n int) (finds []Finding) {
 		os.MkdirAll(sub, 0o755)
 		defer os.RemoveAll(sub)
 		file := filepath.Join(sub, "target file%41.log") // a space and a literal %41 in the name: exactly the path must be opened
+		if b.URL.Path != "" && b.URL.Path != "plain" {
+			return replaySinkURLPath(b, sub)
+		}
 		u := url.URL{Path: file}
 		switch b.URL.Scheme {
 		case "none":
